@@ -158,6 +158,12 @@ type recorder struct {
 	w     *World
 	calls []Call
 	fail  int
+	// loop mode: the mechanism is a consumer that takes one key at a time through an unbuffered
+	// channel (like the flavours' channelNewEonPublicKey into their main loop) and is busy for a
+	// while between two receives. It never refuses; a hand-over attempt ends early only when the
+	// HANDLER's context ends, which is counted in aborted and records no call.
+	slow    chan Call
+	aborted int
 }
 
 var _ p2p.Messaging = (*recorder)(nil)
@@ -170,6 +176,42 @@ func (r *recorder) taken() []Call {
 	r.mu.Lock()
 	defer r.mu.Unlock()
 	return append([]Call{}, r.calls...)
+}
+
+// offer hands a key to the slow consumer (loop mode) or records it at once.
+func (r *recorder) offer(ctx context.Context, c Call) error {
+	r.mu.Lock()
+	ch := r.slow
+	r.mu.Unlock()
+	if ch == nil {
+		return r.record(c)
+	}
+	select {
+	case ch <- c:
+		return nil
+	case <-ctx.Done():
+		r.mu.Lock()
+		r.aborted++
+		r.mu.Unlock()
+		return ctx.Err()
+	}
+}
+
+// consume is the busy consumer of loop mode.
+func (r *recorder) consume(ch chan Call, busy time.Duration, stop <-chan struct{}) {
+	for {
+		select {
+		case c := <-ch:
+			_ = r.record(c)
+			select {
+			case <-time.After(busy):
+			case <-stop:
+				return
+			}
+		case <-stop:
+			return
+		}
+	}
 }
 
 func (r *recorder) record(c Call) error {
@@ -186,21 +228,21 @@ func (r *recorder) record(c Call) error {
 	return nil
 }
 
-func (r *recorder) SendMessage(_ context.Context, msg p2pmsg.Message, _ ...retry.Option) error {
+func (r *recorder) SendMessage(ctx context.Context, msg p2pmsg.Message, _ ...retry.Option) error {
 	m, ok := msg.(*p2pmsg.EonPublicKey)
 	if !ok {
-		return r.record(Call{M: "bc", Num: -1, Act: -1, Cfg: -1, Key: fmt.Sprintf("?%T", msg)})
+		return r.offer(ctx, Call{M: "bc", Num: -1, Act: -1, Cfg: -1, Key: fmt.Sprintf("?%T", msg)})
 	}
 	w := r.w
 	okSig, err := p2pmsg.VerifySignature(m, w.addr)
 	c := Call{M: "bc", Num: w.absEonNum(m.Eon), Act: w.absAct(m.ActivationBlock), Cfg: w.absCfg(m.KeyperConfigIndex),
 		Key: w.keyToken(m.PublicKey), Wf: err == nil && okSig && m.InstanceId == w.cfg.InstanceID}
-	return r.record(c)
+	return r.offer(ctx, c)
 }
 
-func (r *recorder) callback(_ context.Context, pk keyper.EonPublicKey) error {
+func (r *recorder) callback(ctx context.Context, pk keyper.EonPublicKey) error {
 	w := r.w
-	return r.record(Call{M: "cb", Num: w.absEonNum(pk.Eon), Act: w.absAct(pk.ActivationBlock), Cfg: w.absCfg(pk.KeyperConfigIndex),
+	return r.offer(ctx, Call{M: "cb", Num: w.absEonNum(pk.Eon), Act: w.absAct(pk.ActivationBlock), Cfg: w.absCfg(pk.KeyperConfigIndex),
 		Key: w.keyToken(pk.PublicKey), Wf: true})
 }
 
@@ -485,6 +527,10 @@ func (w *World) Step(m Mode, op Op) Line {
 			ln.Panic = "no handler for mode " + m.String()
 			break
 		}
+		if w.U.Via == "loop" {
+			w.loopTick(h, op, &ln)
+			break
+		}
 		perm := make([]int, len(op.Ord))
 		for j, x := range op.Ord {
 			perm[j] = x - 1
@@ -518,6 +564,115 @@ func (w *World) Step(m Mode, op Op) Line {
 		ln.Post = []Row{}
 	}
 	return ln
+}
+
+// Polling interval and consumer pace of loop mode: the consumer is slower than the ticker but
+// takes every key.
+const (
+	LoopTicker = 15 * time.Millisecond
+	loopBusy   = 8 * LoopTicker
+)
+
+// loopTick executes a "tick" op through the REAL polling loop eonPubKeyHandler.loop (shortened
+// ticker) against the slow consumer: the loop is started, runs until it is quiescent (a round
+// that found the table empty has completed) and is then cancelled. What the consumer took during
+// the whole run is the calls of the step. loop() swallows the error of a round, so err is "nil"
+// unless a hand-over was ended by the handler's own context ("ctx") or loop returned something
+// other than the cancellation.
+func (w *World) loopTick(h *keyper.VerifEonPubKeyHandler, op Op, ln *Line) {
+	perm := make([]int, len(op.Ord))
+	for j, x := range op.Ord {
+		perm[j] = x - 1
+	}
+	w.srv.SetRowOrder(func(stmt string, n int) []int {
+		if stmt == "GetAndDeleteEonPublicKeys" && n == len(perm) {
+			return perm
+		}
+		return nil
+	})
+	var omu sync.Mutex
+	emptyRounds := 0
+	w.srv.SetFault(func(ev fakepg.Event) fakepg.Fault {
+		if ev.Kind == fakepg.KindExecute && ev.Stmt == "GetAndDeleteEonPublicKeys" {
+			n := 0
+			w.srv.View(func(db *fakepg.DB) { n = len(db.OutgoingEonKeys) })
+			if n == 0 {
+				omu.Lock()
+				emptyRounds++
+				omu.Unlock()
+			}
+		}
+		return fakepg.None
+	})
+	ch := make(chan Call)
+	stop := make(chan struct{})
+	w.rec.mu.Lock()
+	w.rec.slow = ch
+	w.rec.aborted = 0
+	w.rec.mu.Unlock()
+	go w.rec.consume(ch, loopBusy, stop)
+	ctx, cancel := context.WithCancel(context.Background())
+	done := make(chan string, 1)
+	var lerr error
+	go func() {
+		defer func() {
+			if p := recover(); p != nil {
+				done <- fmt.Sprint("panic: ", p)
+				return
+			}
+			done <- ""
+		}()
+		lerr = h.Loop(ctx)
+	}()
+	deadline := time.After(watchdog)
+	poll := time.NewTicker(LoopTicker / 3)
+	defer poll.Stop()
+	finished := false
+wait:
+	for {
+		select {
+		case p := <-done: // loop ended by itself
+			ln.Panic = p
+			finished = true
+			break wait
+		case <-deadline:
+			ln.Panic = "hang"
+			w.Dead = true
+			break wait
+		case <-poll.C:
+			omu.Lock()
+			q := emptyRounds >= 2 // a round that saw an empty table has completed
+			omu.Unlock()
+			if q {
+				break wait
+			}
+		}
+	}
+	cancel()
+	if !finished && !w.Dead {
+		select {
+		case p := <-done:
+			ln.Panic = p
+		case <-time.After(watchdog):
+			ln.Panic = "hang"
+			w.Dead = true
+		}
+	}
+	close(stop)
+	w.rec.mu.Lock()
+	w.rec.slow = nil
+	aborted := w.rec.aborted
+	w.rec.mu.Unlock()
+	w.srv.SetFault(nil)
+	w.srv.SetRowOrder(nil)
+	switch {
+	case aborted > 0:
+		ln.Err = "ctx"
+	case lerr != nil && !errors.Is(lerr, context.Canceled):
+		ln.Err = "other: loop returned " + lerr.Error()
+	default:
+		ln.Err = "nil"
+	}
 }
 
 // insertQuery records a finished key generation the way finalizeDKG does on success: with the
